@@ -182,6 +182,22 @@ def call(m, pre):
     return ev, post
 
 
+def query(m, i):
+    """The four neighbour / valence accessors for atom i (1-based position in m.atoms)."""
+    atoms = list(m.atoms)
+    pos = {id(a): k + 1 for k, a in enumerate(atoms)}
+    a = atoms[i - 1]
+    try:
+        nb = [pos.get(id(x), 0) for x in m.connected_atoms(a)]
+        n = int(m.n_bonds_with_atom(a))
+        if len(list(m.bonds_with_atom(a))) != n:
+            n = -1
+        bv = float(m.bonded_valence(a))
+        return {"ev": "query", "out": "ok", "i": i, "nb": nb, "n": n, "bv2": int(round(2 * bv))}
+    except Exception as e:                       # noqa: BLE001
+        return {"ev": "query", "out": type(e).__name__, "i": i, "nb": [], "n": 0, "bv2": 0}
+
+
 def hints_of(m):
     return [int(a.attrib["__implicit_hydrogens"]) if "__implicit_hydrogens" in a.attrib else -1 for a in m.atoms]
 
@@ -303,6 +319,25 @@ class HAddAdapter:
                           "len": "cov" if self._len_ok(h) else "off",
                           "dir": self._dir(h)} for h in ev["newh"]]
             return {"out": ev["out"], "n": len(ev["newh"])}
+        if a == "query":
+            ev = query(self.m, act["i"])
+            self.events.append(ev)
+            self.newh = []
+            return {"out": ev["out"], "nb": sorted(ev["nb"]), "n": ev["n"] if len(ev["nb"]) == ev["n"] else -1,
+                    "bv2": ev["bv2"]}
+        if a == "rewire":                           # del_bond + connect: the number of bonds stays
+            try:
+                b = self.m.bonds[act["k"] - 1]
+                keep, bt = b.a2, b.btype
+                self.m.del_bond(b)
+                self.m.connect(self.m.atoms[act["j"] - 1], keep, btype=bt)
+                out = "ok"
+            except Exception as e:                  # noqa: BLE001
+                out = type(e).__name__
+            self.snap = snapshot(self.m)
+            self.events.append(mol_event(self.snap, hints_of(self.m)))
+            self.newh = []
+            return {"out": out}
         raise AssertionError(f"unknown action {a}")
 
     def _len_ok(self, h):
@@ -310,7 +345,7 @@ class HAddAdapter:
         return bool(h["c"]) and el in RCOV and abs(h["d"] - uA(RCOV[el] + RCOV["H"])) <= TOL_D
 
     def _dir(self, h):
-        pre_bonds = self.events[-2]["bonds"]          # the molecule as it was before this call
+        pre_bonds = next(e for e in reversed(self.events[:-1]) if "bonds" in e)["bonds"]   # the molecule before this call
         if not h["c"] or not neighbours(pre_bonds, h["c"]):
             return "free"
         return "away" if h["cos"] <= -COS_AWAY else ("toward" if h["cos"] >= COS_AWAY else "perp")
@@ -320,11 +355,7 @@ class HAddAdapter:
         to what was built and the Atom object is the same; new atoms are 0."""
         s = self.snap
         n0 = len(self.X0)
-        if self.events and self.events[-1]["ev"] == "addh":
-            atoms_after = self.events[-1]["atoms"]
-            bonds = self.events[-1]["bonds"]
-        else:
-            atoms_after, bonds = [public(a) for a in s["atoms"]], s["bonds"]
+        atoms_after, bonds = [public(a) for a in s["atoms"]], s["bonds"]      # canonical numbering after a call
         X = s["coords"]
         q = getattr(self.m, "atomic_charges", None)
         out = []
